@@ -648,5 +648,11 @@ HAshutdown(void)
     atom_free_list = NULL;
     memset(atom_group_list, 0, sizeof(atom_group_t *) * MAXGROUP);
 
+    /* The cached atoms belonged to the groups just released */
+    for (unsigned u = 0; u < ATOM_CACHE_SIZE; u++) {
+        atom_id_cache[u]  = -1;
+        atom_obj_cache[u] = NULL;
+    }
+
     return SUCCEED;
 } /* end HAshutdown() */
